@@ -38,6 +38,25 @@ def step (_ : Unit) (line : String) : Unit × String :=
         match parse bs with
         | (.ok p, _) => ((), "ok " ++ joinNats (p.tables.map Prod.fst))
         | (.error _, _) => ((), "err")
+  | ["hll", h] =>
+    match hexBytes h.toList with
+    | none => ((), "bad-op")
+    | some bs =>
+      if bs.length < 5 then ((), "err") else
+      match bs with
+      | 0x1f :: 0x8b :: _ => ((), "skip")
+      | 0x42 :: 0x5a :: _ => ((), "skip")
+      | 0xfd :: 0x37 :: 0x7a :: 0x58 :: 0x5a :: _ => ((), "skip")
+      | 0x28 :: 0xb5 :: 0x2f :: 0xfd :: _ => ((), "skip")
+      | _ =>
+        -- the allocation request is decided from the header alone: do not build 2^p registers to say so
+        match bs with
+        | _ :: _ :: _ :: _ :: p :: _ =>
+          if p % 64 > 24 then ((), s!"alloc {p % 64}") else
+          match hllParse bs with
+          | (.ok r, _) => ((), s!"ok {r.ksize}")
+          | (.error _, _) => ((), "err")
+        | _ => ((), "err")
   | ["ng"] => ((), "err")
   | _ => ((), "bad-op")
 
